@@ -60,14 +60,16 @@ type Case struct {
 }
 
 type OpObs struct {
-	Kind     string   `json:"kind"` // ok | conflict | nochange | err
-	Rows     []Row    `json:"rows"`
-	Msg      string   `json:"msg,omitempty"`
-	NewCnt   int      `json:"newcnt"`         // commits on HEAD that are not ancestors of the start point (rb: of onto)
-	Dflt     []int    `json:"dflt,omitempty"` // rb: the commits of the default plan, in order
-	Cols1    []string `json:"cols1"`          // non-key columns of t1 afterwards
-	Restored bool     `json:"restored"`       // after --abort: working / staged / head hashes, branch and status as before the operation
-	Pauses   int      `json:"pauses"`         // how many times the operation stopped with conflicts and was continued
+	Kind      string   `json:"kind"` // ok | conflict | nochange | err
+	Rows      []Row    `json:"rows"`
+	Msg       string   `json:"msg,omitempty"`
+	NewCnt    int      `json:"newcnt"`         // commits on HEAD that are not ancestors of the start point (rb: of onto)
+	Dflt      []int    `json:"dflt,omitempty"` // rb: the commits of the default plan, in order
+	Cols1     []string `json:"cols1"`          // non-key columns of t1 afterwards
+	Restored  bool     `json:"restored"`       // after --abort: working / staged / head hashes, branch and status as before the operation
+	Work      []Row    `json:"work"`           // working-set rows afterwards (rows = committed HEAD rows)
+	DirtyKept bool     `json:"dirtykept"`      // the unrelated edits are still uncommitted: dolt_status lists them unstaged, HEAD does not have them
+	Pauses    int      `json:"pauses"`         // how many times the operation stopped with conflicts and was continued
 }
 
 type Obs struct {
